@@ -100,7 +100,9 @@ def register(reg):
                  # absorbed only when within rounding of the extrapolated value; an exactly regular value is always absorbed
                  'implies(result and old(self.repeat) > 0, abs(v - %s) * 4503599627370496 <= max(abs(v), abs(%s)))' % (EXPV, EXPV),
                  'implies(old(self.repeat) > 0 and v == %s, result)' % EXPV],
-        canaries=['result', 'not result'], crosscheck=False), callable_=False)
+        canaries=['result', 'not result'],
+        domains={'v': [0.0, 1.0, 2.0, 3.0, 3.0000000001, 3.00000000000001, 1.6e9 + 3.25, 1.6e9 + 3.0, 1e12 + 0.3, 1e12 + 0.30000001, -5.5, 0.1 + 0.2, 0.3]}),
+        callable_=False)
     reg.add(Contract(
         F, 'RLEItem.values', {'self': ITEM}, requires=['self.repeat >= 0'], yields=Int,
         ensures=['len(out) == self.repeat + 1', 'forall(0, len(out), lambda t: out[t] == self.datum + t * self.stride)'],
